@@ -113,7 +113,7 @@ def ops_unit(tier):
             cap = 9
             r, c, z = nr, nc, nnz
             if tier == 'quick' and h == 'h_binop':
-                r, c, z = 2, 2, 4
+                r, c, z = 2, 3, 4          # wide on purpose: a column index may exceed the row count
             if tier == 'quick' and h == 'h_from_coo':
                 z = 4
             extra = {}
@@ -121,6 +121,10 @@ def ops_unit(tier):
                 r, c, z, extra = 2, 2, 4, {'NK2': 3}
             ents.append(Entry(h, defines=dict({'FP': 3, 'NR': r, 'NC': c, 'NNZ': z, 'CAP': cap}, **extra), route='B', timeout=1500 if tier == 'quick' else 3600, mem_gb=8,
                               unwind=cap + 2, bounds="%dx%d matrices over GF(3), at most %d stored entries, every sparsity pattern and value; unwinding %d with unwinding assertions" % (r, c, z, cap + 2)))
+    # one long row (6 stored entries): the binary searches of get/set go through several bisection steps
+    for h in ('h_get', 'h_set'):
+        ents.append(Entry(h, defines={'FP': 3, 'NR': 1, 'NC': 6, 'NNZ': 6, 'CAP': 9}, route='B', timeout=1500 if tier == 'quick' else 3600, mem_gb=8, unwind=11,
+                          bounds="1x6 matrices over GF(3), at most 6 stored entries (one long row), every sparsity pattern and value; unwinding 11 with unwinding assertions"))
     return Unit('csr_operations', 'C25', 'contracts/C25/ops.cpp', {'csr.inc': ops_pieces()}, ents, route='B',
                 trusted=["field prelude prelude/field.h (entries are elements of GF(3): exact add/sub/mul and is_zero)",
                          "contracts/C25/csr_prelude.h: std::vector<unsigned> / vec_basic stubs with position iterators, std::swap, std::partial_sum, DenseMatrix get/set",
